@@ -293,7 +293,7 @@ func vC16RunJWS(k *vKit, gen vSx, r *vRng, alg string, size, ser int) {
 	obs := vGuard(func() vSx {
 		o, err := ParseSigned(text)
 		if err != nil {
-			return vErr(vC16ErrCode(err, text))
+			return vErr(vC16ErrCode(err, text, 3))
 		}
 		sg := &o.Signatures[0]
 		return vOk(vB(sg.original.Protected.bytes()), vB(o.payload), vB(sg.Signature), vB(o.computeAuthData(sg)))
@@ -547,7 +547,7 @@ func vC16RunJWE(k *vKit, gen vSx, r *vRng, alg, enc string, zip, size, ser int) 
 	obs := vGuard(func() vSx {
 		o, err := ParseEncrypted(text)
 		if err != nil {
-			return vErr(vC16ErrCode(err, text))
+			return vErr(vC16ErrCode(err, text, 5))
 		}
 		return vOk(vB(o.original.Protected.bytes()), vB(o.recipients[0].encryptedKey), vB(o.iv), vB(o.ciphertext), vB(o.tag), vB(o.computeAuthData()))
 	})
